@@ -17,6 +17,7 @@ import (
 	"verifharness/core"
 
 	"github.com/mlange-42/arche/ecs"
+	"github.com/mlange-42/arche/ecs/event"
 	"github.com/mlange-42/arche/generic"
 )
 
@@ -133,6 +134,7 @@ type gReplay struct {
 	Build    string `json:"build"`
 	Message  string `json:"message"`
 	Cap      int    `json:"cap"`
+	Listen   bool   `json:"listen,omitempty"` // both worlds carry a listener; their event logs must agree
 	Ops      []gOp  `json:"ops"`
 }
 
@@ -152,6 +154,7 @@ type gWorld struct {
 	exch       *generic.Exchange // the world's long-lived Exchange helper
 	exchRel    int               // relation type index + 1 the helper is configured for (0: none)
 	Wg, Wc     *ecs.World
+	recG, recC *gRecorder // event logs since the last comparison (nil: no listener)
 	ids        []ecs.ID
 	ents       []*gEnt
 	labels     map[string]bool
@@ -221,7 +224,65 @@ func (g *gWorld) values(ts []int, tok uint32) ([]unsafe.Pointer, []ecs.Component
 }
 
 // compare checks that both worlds are in the same observable state.
+// gRecorder logs every event of a world as text.
+type gRecorder struct{ log []string }
+
+func (r *gRecorder) Notify(w *ecs.World, e ecs.EntityEvent) {
+	rel := func(p *ecs.ID) string {
+		if p == nil {
+			return "-"
+		}
+		return fmt.Sprint(*p)
+	}
+	// (the ID lists are reported in the order the caller gave them: compared as sets)
+	ids := func(l []ecs.ID) []string {
+		out := []string{}
+		for _, id := range l {
+			out = append(out, fmt.Sprint(id))
+		}
+		sort.Strings(out)
+		return out
+	}
+	r.log = append(r.log, fmt.Sprintf("%v +%v -%v rel %s->%s oldtarget %v types %08b", e.Entity, ids(e.AddedIDs), ids(e.RemovedIDs), rel(e.OldRelation), rel(e.NewRelation), e.OldTarget, e.EventTypes))
+}
+func (r *gRecorder) Subscriptions() event.Subscription { return event.All }
+func (r *gRecorder) Components() *ecs.Mask             { return nil }
+
+// listen installs a recording listener on both worlds: "exactly the effect" of the documented
+// equivalent includes the events it emits (one call, not a decomposition into several).
+func (g *gWorld) listen() {
+	g.recG, g.recC = &gRecorder{}, &gRecorder{}
+	g.Wg.SetListener(g.recG)
+	g.Wc.SetListener(g.recC)
+	g.label("listener on both worlds (event logs compared)")
+}
+
+func (g *gWorld) compareEvents() string {
+	if g.recG == nil {
+		return ""
+	}
+	a, b := append([]string{}, g.recG.log...), append([]string{}, g.recC.log...)
+	g.recG.log, g.recC.log = g.recG.log[:0], g.recC.log[:0]
+	if len(a) > 0 {
+		g.label("events compared")
+	}
+	sort.Strings(a)
+	sort.Strings(b)
+	if len(a) != len(b) {
+		return fmt.Sprintf("the generic call emitted %d events, its ID-based equivalent %d: generic %v, core %v", len(a), len(b), a, b)
+	}
+	for i := range a {
+		if a[i] != b[i] {
+			return fmt.Sprintf("the generic call emitted event [%s], its ID-based equivalent [%s]", a[i], b[i])
+		}
+	}
+	return ""
+}
+
 func (g *gWorld) compare() string {
+	if msg := g.compareEvents(); msg != "" {
+		return msg
+	}
 	if a, b := g.Wg.Stats().Entities.Used, g.Wc.Stats().Entities.Used; a != b {
 		return fmt.Sprintf("generic world has %d entities, core world %d", a, b)
 	}
